@@ -680,6 +680,54 @@ def rule_t7(prog, rep, rid='T7'):
                       'still carries the id the next search/continuation is given, so that continuation visits nothing')
 
 
+def rule_t7b(prog, rep, rid='T7'):
+    """The traversal id is advanced only by the walker and by (re)initialisation: no function that advances it is reachable
+    from any other public operation.  A search that bumps the 8-bit id makes it meet the stamps of the last completed walk
+    again after 256 searches - the continuation then takes every node for visited."""
+    bumpers = set()
+    for g in prog.funcs_in(UNIT):
+        if g.body is not None and any(x.get('kind') == 'UnaryOperator' and x.get('opcode') in ('++', '--') and canon(children(x)[0]).endswith('->tid')
+                                      or (x.get('kind') in ('BinaryOperator', 'CompoundAssignOperator') and (x.get('opcode') or '').endswith('=')
+                                          and x.get('opcode') not in ('==', '!=', '<=', '>=') and canon(children(x)[0]).endswith('tbl->tid'))
+                                      for x in walk(g.body)):
+            bumpers.add(g.key)
+    if not bumpers:
+        return
+    allowed = {'qtreetbl_getnext', 'qtreetbl', 'qtreetbl_clear', 'qtreetbl_free'}
+    for f in sorted(prog.funcs_in(UNIT), key=lambda x: x.line or 0):
+        if f.static or f.body is None or f.name in allowed:
+            continue
+        seen, work, par = {f.key}, [f], {}
+        hit = None
+        while work and hit is None:
+            g = work.pop()
+            for x in walk(g.body):
+                if x.get('kind') != 'CallExpr':
+                    continue
+                for c in prog.callees(g.unit, x):
+                    if getattr(c, 'body', None) is None or c.key in seen:
+                        continue
+                    seen.add(c.key)
+                    par[c.key] = g
+                    if c.key in bumpers:
+                        hit = (c, x.get('_line'), g)
+                        break
+                    if c.name in allowed:
+                        continue          # another public operation's own business
+                    work.append(c)
+                if hit:
+                    break
+        if f.key in bumpers:
+            hit = (f, f.line, f)
+        rep.instance(rid)
+        rep.oblige(rid, hit is None, {'function': f.name, 'advances_traversal_id': bool(hit)})
+        if hit:
+            rep.violation(rid, hit[2], hit[1], 'tid-bump:%s' % f.name,
+                          '%s reaches %s, which advances the 8-bit traversal id: only the walker and (re)initialisation may do that - '
+                          'after 256 such calls the id equals the stamps left by the last completed walk and a continued walk '
+                          'takes every node for visited' % (f.name, hit[0].name))
+
+
 def rule_t8(prog, rep, rid='T8'):
     """A value copy may legitimately be NULL (empty value): a NULL copy counts as an allocation failure only together with a
     non-empty source."""
